@@ -249,6 +249,25 @@ def check_glob(ctx, tr, rng, k, j, mon, toks=None, fn=None):
                         ('globfilter', lambda: bool(G.globfilter([c], text, flags=flags | G.REALPATH, root_dir=root))),
                         ('bytes', lambda: G.globmatch(os.fsencode(c), os.fsencode(text), flags=flags | G.REALPATH, root_dir=os.fsencode(root))),
                     ]
+                    if '/' in c:
+                        # the same file named with a doubled separator (first / last / every separator of the path)
+                        parts_ = c.split('/')
+                        for what_, c2 in (('first separator doubled', parts_[0] + '//' + '/'.join(parts_[1:])),
+                                          ('last separator doubled', '/'.join(parts_[:-1]) + '//' + parts_[-1]),
+                                          ('every separator doubled', '//'.join(parts_))):
+                            variants.append((what_, lambda c2=c2: G.globmatch(c2, text, flags=flags | G.REALPATH, root_dir=root)))
+                    # the implicit `**` that NEGATEALL supplies for an exclusion-only list is an ordinary `**`
+                    try:
+                        fl_ = (flags | G.REALPATH | G.GLOBSTAR) & ~G.MATCHBASE
+                        e1 = G.globmatch(c, '**', flags=fl_, root_dir=root)
+                        e2 = G.globmatch(c, ['!zz-none*'], flags=fl_ | G.NEGATE | G.NEGATEALL, root_dir=root)
+                        e3 = G.globmatch(c, '-zz-none*', flags=fl_ | G.NEGATE | G.NEGATEALL | G.MINUSNEGATE, root_dir=root)
+                    except Exception as e:  # noqa: BLE001
+                        e1, e2, e3 = None, f'raised {type(e).__name__}', None
+                    ctx.count('realpath_spelling_variants')
+                    if not (e1 == e2 == e3):
+                        ctx.disagree('the implicit `**` of NEGATEALL does not apply the symlink rule of a written `**`',
+                                     dict(wit, candidate=c, written=e1, implicit=e2, implicit_minus=e3))
                     for what, call_ in variants:
                         try:
                             mv = call_()
